@@ -119,21 +119,22 @@ def xoNext (x : Xo) : UInt64 × Xo :=
   let s3 := rotl s3 45
   (result, ⟨s0, s1, s2, s3⟩)
 
-/-- `rng.gen_range(0..n)` for `usize` (rand 0.8.5 `sample_single_inclusive`) -/
-def genRange (x : Xo) (n : Nat) (fuel : Nat := 1000) : Nat × Xo :=
-  let range := n
-  -- leading zeros of `range` as a 64-bit word
+/-- rejection zone of `sample_single_inclusive` for a 64-bit range: `(range << lz) - 1` (wrapping) -/
+def genRangeZone (range : Nat) : Nat :=
   let lz := 64 - (Nat.log2 range + 1)
-  let zone := ((range <<< lz) % 2 ^ 64 + 2 ^ 64 - 1) % 2 ^ 64
-  let rec go (x : Xo) : Nat → Nat × Xo
-    | 0 => (0, x)
-    | f + 1 =>
-      let (v, x') := xoNext x
-      let prod := v.toNat * range
-      let hi := prod / 2 ^ 64
-      let lo := prod % 2 ^ 64
-      if lo ≤ zone then (hi, x') else go x' f
-  go x fuel
+  ((range <<< lz) % 2 ^ 64 + 2 ^ 64 - 1) % 2 ^ 64
+
+/-- the rejection loop: draw `v`, widen-multiply by the range, accept when the low word is in the zone -/
+def genRangeGo (range zone : Nat) (x : Xo) : Nat → Nat × Xo
+  | 0 => (0, x)
+  | f + 1 =>
+    let vx := xoNext x
+    let prod := vx.1.toNat * range
+    if prod % 2 ^ 64 ≤ zone then (prod / 2 ^ 64, vx.2) else genRangeGo range zone vx.2 f
+
+/-- `rng.gen_range(0..n)` for `usize` (rand 0.8.5 `sample_single_inclusive`) -/
+def genRange (x : Xo) (n : Nat) (fuel : Nat := 64) : Nat × Xo :=
+  genRangeGo n (genRangeZone n) x fuel
 
 /-- `Uniform<f32>::new(0.0, total)`: the scale after the (normally idle) decrease loop -/
 def uniformScale (total : Float32) : Float32 :=
@@ -180,9 +181,17 @@ def weightedIndex (x : Xo) (weights : List Float32) : Option (Nat × Xo) :=
       let (chosen, x') := uniformSample x scale
       some (partitionPoint cum chosen, x')
 
+/-- index drawn by the rejection loop (first component of `genRangeGo`, as its own recursion) -/
+def genRangeIdx (range zone : Nat) (x : Xo) : Nat → Nat
+  | 0 => 0
+  | f + 1 =>
+    let vx := xoNext x
+    let prod := vx.1.toNat * range
+    if prod % 2 ^ 64 ≤ zone then prod / 2 ^ 64 else genRangeIdx range zone vx.2 f
+
 /-- `Profile::explore_any`: index of the chance branch taken among `n` -/
 def exploreAny (epoch past absDisc absBits future n : Nat) : Nat :=
-  (genRange (xoSeed (seedOf epoch past absDisc absBits future)) n).1
+  genRangeIdx n (genRangeZone n) (xoSeed (seedOf epoch past absDisc absBits future)) 64
 
 /-- `Profile::explore_one`: index of the opponent branch taken for the given policy weights -/
 def exploreOne (epoch past absDisc absBits future : Nat) (weights : List Float32) : Option Nat :=
